@@ -61,7 +61,6 @@ func (c *capabilities) Tagging() bool {
 }
 
 type counter struct {
-	prev        int64
 	curr        int64
 	cachedCount CachedCount
 }
@@ -75,17 +74,12 @@ func (c *counter) Inc(v int64) {
 }
 
 func (c *counter) value() int64 {
+	// curr holds only what has not been handed to a reporter yet, so that
+	// taking the delta is a single atomic step: concurrent report passes
+	// (the report loop, Close's final report, the report of a re-acquired
+	// closed scope) can neither deliver an increment twice nor lose one.
 	verifhook.Yield("counter.value:0")
-	curr := atomic.LoadInt64(&c.curr)
-
-	verifhook.Yield("counter.value:1")
-	prev := atomic.LoadInt64(&c.prev)
-	if prev == curr {
-		return 0
-	}
-	verifhook.Yield("counter.value:2")
-	atomic.StoreInt64(&c.prev, curr)
-	return curr - prev
+	return atomic.SwapInt64(&c.curr, 0)
 }
 
 func (c *counter) report(name string, tags map[string]string, r StatsReporter) {
@@ -109,7 +103,7 @@ func (c *counter) cachedReport() {
 }
 
 func (c *counter) snapshot() int64 {
-	return atomic.LoadInt64(&c.curr) - atomic.LoadInt64(&c.prev)
+	return atomic.LoadInt64(&c.curr)
 }
 
 type gauge struct {
